@@ -82,9 +82,12 @@ P = {
    text="Structural necessary conditions of exactly-one-outcome decided on every CFG path of the producer pipeline (emit/Done pairing, no partially disposed batch, marker accounting, exactly-once routing of every partition set, retry budget guards, Wait-before-close, sync-producer expectation protocol). It is not a proof of the behaviour: cross-goroutine liveness of the retry loop is not covered.",
    note="Trusts go/ssa's model of the source; disposer functions are computed as a fixed point from the source, channel/field anchors are named in rules_c01.go.",
    technique="SSA path-counting and must-precede/must-follow queries (custom analyzer over go/ssa CFG)"),
+ "C13": dict(claimed=True,
+   text="PARTIAL claim — the property as a whole (sizes differ by at most one, Kafka's balance criterion, fixed point of re-planning, keep-on-leave / no-shuffle-on-join) is a numeric relation over the algorithm's outputs and is NOT decided. Decided are four structural necessary conditions: range hands member i the slice partitions[f(i):f(i+1)] for one rounding function f (contiguous, telescoping ranges); round-robin examines and assigns members[i % n] and advances the cursor by exactly one per assignment and per skipped member; every sticky move goes through reassignPartition → getTheActualPartitionToBeMoved (reverse pair looked up, its partition returned) and is recorded by movePartition, which is what prevents pairwise swaps within a topic; of several claimants of a partition the highest generation becomes the current owner and the next the previous owner.",
+   note="Breaking any of the four clauses breaks the corresponding clause of the property (each has a seeded or self-test mutant with a failing plan); holding them does not establish balance or stickiness.",
+   technique="SSA structural expression matching (equality modulo i -> i+1), phi/cursor analysis, who-may-call and provenance queries"),
 }
 NA = {
- "C13": "every clause (sizes differ by at most one, fixed point of re-planning, no pairwise swaps) is a numeric relation over the algorithm's outputs for all inputs; deciding it needs execution or a solver, which this technique family excludes; no structural necessary condition strong enough to claim the property through (DESIGN.md §6)",
 }
 
 checks = []
